@@ -25,9 +25,11 @@ PID = "C08"
 
 def work(item):
     kind = item[0]
+    H.set_naming("distinct")
     if kind == "hist":
         return work_hist(item)
-    _, opi, mask = item
+    _, opi, mask = item[:3]
+    H.set_naming(item[3] if len(item) > 3 else "distinct")  # "shared": node C is also called "A" (by-name lookups keep one of them)
     ops = H.operations()
     may_fail = False
     if opi >= len(ops):
@@ -35,7 +37,7 @@ def work(item):
         may_fail = True
     else:
         label, real, model_fn, _ = ops[opi]
-    out = {"item": f"{label}/mask={mask:011b}", "paths": 0, "violations": [], "inconclusive": [], "samples": []}
+    out = {"item": f"{label}/mask={mask:011b}/{H.NODE_NAMING}", "paths": 0, "violations": [], "inconclusive": [], "samples": []}
 
     def fn():
         U = H.Universe()
@@ -66,9 +68,10 @@ def work(item):
 
 def viol(label, mask, bits, what):
     cached = [n for k, n in enumerate(H.CACHED) if mask >> k & 1]
-    return {"key": f"c08:{label}:{sorted(k for k, v in bits.items() if v in (True, 'True'))}:{what[:60]}", "group": f"{label.split('(')[0]}:{what[:60]}",
-            "what": f"pre-state {bits}, cached before the call: {cached}; after {label}: {what}",
-            "replay": {"property": PID, "kind": "step", "bits": {k: (v in (True, 'True')) for k, v in bits.items()}, "mask": mask, "op": label}}
+    nm = "" if H.NODE_NAMING == "distinct" else " (node C is also called 'A')"
+    return {"key": f"c08:{label}:{H.NODE_NAMING}:{sorted(k for k, v in bits.items() if v in (True, 'True'))}:{what[:60]}", "group": f"{label.split('(')[0]}:{what[:60]}",
+            "what": f"pre-state {bits}{nm}, cached before the call: {cached}; after {label}: {what}",
+            "replay": {"property": PID, "kind": "step", "bits": {k: (v in (True, 'True')) for k, v in bits.items()}, "mask": mask, "op": label, "naming": H.NODE_NAMING}}
 
 
 HIST_OPS = ["add_node(A)", "add_link(A,L1,B)", "add_link(A,L2,B)", "add_link(B,L1,C)", "add_links([(C,L1,A)])", "add_origin(O1,A)", "add_origin(O2,A)",
@@ -104,6 +107,7 @@ def work_hist(item):
 
 
 def replay(rec):
+    H.set_naming(rec.get("naming", "distinct"))
     U = H.Universe()
     ops = {o[0]: o for o in H.operations()}
     ops.update({l: (l, f) for l, f in H.failing_calls()})
@@ -137,6 +141,7 @@ def main():
     if args.thorough:
         masks += [(1 << a) | (1 << b) for a, b in itertools.combinations(range(11), 2)] + [0x7FF ^ (1 << k) for k in range(1, 11)]
     items = [("step", i, m) for i in range(len(ops) + len(H.failing_calls())) for m in masks]
+    items += [("step", i, m, "shared") for i in range(len(ops) + len(H.failing_calls())) for m in ((0x7FF, 0) if not args.thorough else masks[:13])]
     hl = 4 if args.thorough else 3
     items += [("hist", f, hl, args.seed) for f in HIST_OPS]
     results = harness.pmap(work, items, args.serial, chunksize=4)
